@@ -826,7 +826,7 @@ def gen_case(rng, tier):
             accs = accs2
             rng.shuffle(accs)
         fs = rng.sample(VKEYS, rng.randint(1, 3))
-        if rng.random() < 0.1:                      # names given twice: kept once (fix: 354e61d24)
+        if rng.random() < 0.1:                      # names given twice: kept once (fix: df62dcee7)
             accs = accs + [rng.choice(accs)]
         if rng.random() < 0.1:
             fs = fs + [rng.choice(fs)]
@@ -1568,7 +1568,7 @@ def probe_known(ctx):
         if d is not None:
             ctx.violation({"class": "group-key-comma-collision", "args": mlr_args(s), "input": dkvp(recs, ";", ":").decode(), "observed": rows if cls == "ok" else err,
                            "difference": d, "spec": s, "expected": "two groups (x,y | z) and (x | y,z): groups are formed by the exact texts of the group-by fields; theorem C10_group_key_exact_text_refuted"})
-    # 5. step -a shift_lead_n / slwin_B_F, n, F >= 2: a group with fewer records than the look-ahead (regression of fix: b0d126048)
+    # 5. step -a shift_lead_n / slwin_B_F, n, F >= 2: a group with fewer records than the look-ahead (regression of fix: 1cf092ed2)
     for s5, recs in (({"verb": "step", "steppers": ["shift_lead_2"], "fs": ["x"], "gs": []}, [[("x", "1")]]),
                      ({"verb": "step", "steppers": ["shift_lead_3", "counter"], "fs": ["x"], "gs": ["g"]},
                       [[("g", "a"), ("x", "1")], [("g", "b"), ("x", "5")], [("g", "a"), ("x", "2")]]),
@@ -1579,10 +1579,10 @@ def probe_known(ctx):
         d = oracle(s5, recs, rows) if cls == "ok" else {"what": cls}
         ctx.cov["probes"]["step look-ahead on a short group: " + " ".join(mlr_args(s5))] = "ok" if d is None else str(d)[:100]
         if d is not None:
-            ctx.violation({"regression_of": "fix b0d126048 (step: the records of a group shorter than the look-ahead were never emitted)", "args": mlr_args(s5),
+            ctx.violation({"regression_of": "fix 1cf092ed2 (step: the records of a group shorter than the look-ahead were never emitted)", "args": mlr_args(s5),
                            "input": dkvp(recs, ";", ":").decode(), "observed": rows if cls == "ok" else err, "difference": d, "spec": s5,
                            "expected": "every record is emitted exactly once, e.g. x=1,x_shift_lead_2="})
-    # 2. an accumulator (or value field) named twice is one accumulator fed once (regression of fix: 354e61d24)
+    # 2. an accumulator (or value field) named twice is one accumulator fed once (regression of fix: df62dcee7)
     recs = [[("x", "3")], [("x", "4")]]
     for args, fld, want in ((["stats1", "-a", "count,count", "-f", "x"], "x_count", "2"), (["stats1", "-a", "sum", "-f", "x,x"], "x_sum", "7"),
                             (["stats1", "-a", "sum,count,sum", "-f", "x,x", "-s"], "x_sum", "3")):
@@ -1591,7 +1591,7 @@ def probe_known(ctx):
         got = dict(rows[0]).get(fld) if cls == "ok" and rows else None
         ctx.cov["probes"][" ".join(args)] = got
         if got != want:
-            ctx.violation({"regression_of": "fix 354e61d24 (stats1: a name given twice in -a or -f fed every value twice)", "args": args, "input": dkvp(recs, ";", ":").decode(),
+            ctx.violation({"regression_of": "fix df62dcee7 (stats1: a name given twice in -a or -f fed every value twice)", "args": args, "input": dkvp(recs, ";", ":").decode(),
                            "observed": rows if cls == "ok" else err, "expected": f"{fld}={want}"})
     # 6. stats1 --gr/--gx: the matched group-by field NAMES are part of the group (regression of fix: 06ddd9e93)
     recs = [[("a", "1"), ("x", "3")], [("b", "1"), ("x", "4")], [("a", "1"), ("x", "5")]]
@@ -1605,7 +1605,7 @@ def probe_known(ctx):
             ctx.violation({"regression_of": "fix 06ddd9e93 (stats1 --gr/--gx: a=1 and b=1 were one group, the grouping key held the values only)", "args": mlr_args(s6),
                            "input": dkvp(recs, ";", ":").decode(), "observed": rows if cls == "ok" else err, "difference": d, "spec": s6,
                            "expected": "a=1,x_sum=8,x_count=2 / b=1,x_sum=4,x_count=1"})
-    # 7. step slwin with a look-back window emits copies (regression of fix: 319ac5667): the --jvquoteall writer rewrote the values
+    # 7. step slwin with a look-back window emits copies (regression of fix: 355abd027): the --jvquoteall writer rewrote the values
     #    of records the window still read; timing-dependent, so the 3-record input is run repeatedly
     recs = [[("x", "1")], [("x", "2")], [("x", "3")]]
     s7 = {"verb": "step-slwin", "wins": [(2, 0)], "fs": ["x"], "gs": []}
@@ -1619,13 +1619,13 @@ def probe_known(ctx):
     ctx.count(("probe", "slwin-race"))
     ctx.cov["probes"]["step slwin_2_0 with --jvquoteall, repeated"] = "ok" if racy is None else str(racy[1])[:100]
     if racy is not None:
-        ctx.violation({"regression_of": "fix 319ac5667 (step slwin kept already-emitted records in its look-back window while the writer rewrote them)", "args": mlr_args(s7),
+        ctx.violation({"regression_of": "fix 355abd027 (step slwin kept already-emitted records in its look-back window while the writer rewrote them)", "args": mlr_args(s7),
                        "input": dkvp(recs, ";", ":").decode(), "observed": racy[0], "difference": racy[1], "spec": s7, "expected": "x_2_0 = 1, 1.5, 2"})
 
 
 def probe_variance(ctx):
     """var/stddev/meaneb of ints large next to their spread"""
-    # 8. exact integer sums (regression of fix: 2ce1d3b8f): stats1, merge-fields and the DSL functions share the finalizer
+    # 8. exact integer sums (regression of fix: e0fcab0a9): stats1, merge-fields and the DSL functions share the finalizer
     recs = [[("x", "1700000001")], [("x", "1700000004")], [("x", "1700000002")]]
     s8 = {"verb": "stats1", "accs": ["var", "stddev", "meaneb", "mean"], "fs": ["x"], "gs": [], "interp": False}
     m8 = {"verb": "merge-fields", "mode": "f", "accs": ["var", "meaneb"], "k": False, "interp": False, "o": "out", "names": ["a", "b", "c"]}
@@ -1635,7 +1635,7 @@ def probe_variance(ctx):
         d = oracle(sp, rr, rows) if cls == "ok" else {"what": cls}
         ctx.cov["probes"]["var of three timestamp-scale ints: " + sp["verb"]] = "ok" if d is None else str(d)[:100]
         if d is not None:
-            ctx.violation({"regression_of": "fix 2ce1d3b8f (var/stddev/meaneb of ints: cancellation in the float formula although the integer sums are exact)", "args": mlr_args(sp),
+            ctx.violation({"regression_of": "fix e0fcab0a9 (var/stddev/meaneb of ints: cancellation in the float formula although the integer sums are exact)", "args": mlr_args(sp),
                            "input": dkvp(rr, ";", ":").decode(), "observed": rows if cls == "ok" else err, "difference": d, "spec": sp, "expected": "var = 7/3 = 2.3333333333333335"})
     st, out, err = mlr_run(ctx, ["-n", "put", "end{print variance([1700000001,1700000004,1700000002]); print stddev({\"a\":100000001,\"b\":100000004,\"c\":100000002,\"d\":100000007})}"], b"", timeout=300)
     got = out.decode("utf-8", "replace").split()
@@ -1643,7 +1643,7 @@ def probe_variance(ctx):
     ok8 = classify_run(st, err) == "ok" and len(got) == 2 and matches(("flt", Fraction(7, 3)), got[0]) and matches(("sqrt", Fraction(7)), got[1])
     ctx.cov["probes"]["DSL variance/stddev of ints large next to their spread"] = got
     if not ok8:
-        ctx.violation({"regression_of": "fix 2ce1d3b8f (DSL variance/stddev of ints)", "input": "variance([1700000001,1700000004,1700000002]); stddev({a:100000001,b:100000004,c:100000002,d:100000007})",
+        ctx.violation({"regression_of": "fix e0fcab0a9 (DSL variance/stddev of ints)", "input": "variance([1700000001,1700000004,1700000002]); stddev({a:100000001,b:100000004,c:100000002,d:100000007})",
                        "observed": got or err.decode("utf-8", "replace")[:300], "expected": "2.3333333333333335 and 2.6457513110645907"})
     # 9. finding variance-cancellation-float-sums: the sum of squares leaves int64, the float sums cancel
     recs = [[("x", "1700000001")], [("x", "1700000004")], [("x", "1700000002")], [("x", "1700000007")]]
